@@ -2,7 +2,7 @@
    Statements only; each closed by [exact] of a lemma proved in Json/*P.v. *)
 From Coq Require Import List NArith ZArith.
 From PB Require Import Base.PBytes Json.JsonGrammar Json.JsonNumModel Json.JsonNumP Json.JsonIntP
-  Json.JsonLexModel Json.JsonLexP Json.JsonEncModel Json.JsonScalarModel Json.JsonScalarP Json.JsonB64P Json.JsonInt64P.
+  Json.JsonLexModel Json.JsonLexP Json.JsonEncModel Json.JsonScalarModel Json.JsonScalarP Json.JsonB64P Json.JsonB64VarP Json.JsonB64IffP Json.JsonB64NlP Json.JsonInt64P Json.JsonQuotedP.
 Import ListNotations.
 Open Scope N_scope.
 
@@ -63,6 +63,27 @@ Theorem C22_unmarshal_uint_sound :
        (t_kind tok = KString /\ exists w1 w2, ws w1 /\ ws w2 /\ t_str tok = w1 ++ raw ++ w2)).
 Proof. exact unmarshal_uint_sound. Qed.
 Print Assumptions C22_unmarshal_uint_sound.
+
+(* int_decode_exact at the protojson layer (unmarshalInt / unmarshalUint, bare and quoted):
+   outside the F6 class a token is accepted with value v iff it is a number token, or a string
+   token whose whole content is one number literal (no surrounding whitespace), and the literal
+   denotes the integer v representable in the type. *)
+Theorem C22_unmarshal_int_exact_except_F6 :
+  forall bits tok v, 1 <= bits <= 64 -> lexeme (t_kind tok) (t_raw tok) ->
+    (forall lit, int_literal_of tok = Some lit -> f6_class lit = false) ->
+    (unmarshal_int bits tok = Some v <->
+     exists lit, int_literal_of tok = Some lit /\ rfc_number lit /\ lit_is_int lit v /\ int_in_range bits true v).
+Proof. exact unmarshal_int_exact_except_F6. Qed.
+Print Assumptions C22_unmarshal_int_exact_except_F6.
+
+Theorem C22_unmarshal_uint_exact_except_F6 :
+  forall bits tok v, bits <= 64 -> lexeme (t_kind tok) (t_raw tok) ->
+    (forall lit, int_literal_of tok = Some lit -> f6_class lit = false) ->
+    (unmarshal_uint bits tok = Some v <->
+     exists lit, int_literal_of tok = Some lit /\ rfc_number lit /\ lit_is_int lit (Z.of_N v) /\
+                 int_in_range bits false (Z.of_N v)).
+Proof. exact unmarshal_uint_exact_except_F6. Qed.
+Print Assumptions C22_unmarshal_uint_exact_except_F6.
 
 (* enums: by name (first declared value of that name) or by any int32 number *)
 Theorem C22_enum_by_name :
@@ -138,6 +159,50 @@ Theorem C22_bytes_base64_roundtrip :
 Proof. exact bytes_base64_roundtrip. Qed.
 Print Assumptions C22_bytes_base64_roundtrip.
 
+(* ... and each of the four encodings (standard / URL-safe alphabet, with / without padding:
+   base64.StdEncoding, URLEncoding, RawStdEncoding, RawURLEncoding) of b is accepted by
+   unmarshalBytes' variant selection and decodes to b *)
+Theorem C22_bytes_base64_accepts_all_variants :
+  forall url pad b tok, t_kind tok = KString -> t_str tok = b64_encode_variant url pad b ->
+    unmarshal_bytes tok = Some b.
+Proof. exact bytes_base64_accepts_all_variants. Qed.
+Print Assumptions C22_bytes_base64_accepts_all_variants.
+
+(* ... and nothing else: for strings without CR/LF (which encoding/base64 skips anywhere),
+   unmarshalBytes accepts s with result b iff s is a base64 text denoting b ([b64_text]: full
+   quanta of four alphabet characters, then optionally a final quantum of 2 or 3 characters,
+   completed by '=' iff padding is in force) in the variant it selects: URL-safe alphabet iff
+   s contains '-' or '_', padded iff the length of s is a multiple of four. *)
+Theorem C22_bytes_base64_accepts_iff :
+  forall tok b, t_kind tok = KString -> no_nl (t_str tok) ->
+    (unmarshal_bytes tok = Some b <->
+     b64_text (has_url_char (t_str tok)) (Nat.eqb (Nat.modulo (length (t_str tok)) 4) 0) (t_str tok) b).
+Proof. exact bytes_base64_accepts_iff. Qed.
+Print Assumptions C22_bytes_base64_accepts_iff.
+
+(* the same for all strings: encoding/base64 skips CR and LF anywhere, so s is accepted iff s
+   with its CR/LF bytes deleted ([strip_nl]) is such a text (the variant selection looks at s
+   as given, CR/LF included) *)
+Theorem C22_bytes_base64_accepts_iff_nl :
+  forall tok b, t_kind tok = KString ->
+    (unmarshal_bytes tok = Some b <->
+     b64_text (has_url_char (t_str tok)) (Nat.eqb (Nat.modulo (length (t_str tok)) 4) 0) (strip_nl (t_str tok)) b).
+Proof. exact bytes_base64_accepts_iff_nl. Qed.
+Print Assumptions C22_bytes_base64_accepts_iff_nl.
+
+(* consequences for rejection: every character of an accepted string is in the selected
+   alphabet (or is padding when padding is in force); unpadded texts never have length 1 mod 4 *)
+Theorem C22_bytes_base64_text_chars :
+  forall url pad s b, b64_text url pad s b ->
+    Forall (fun c => b64_val url c <> None \/ (pad = true /\ c = c_pad)) s.
+Proof. exact b64_text_chars. Qed.
+Print Assumptions C22_bytes_base64_text_chars.
+
+Theorem C22_bytes_base64_text_length_raw :
+  forall url s b, b64_text url false s b -> (length s mod 4 <> 1)%nat.
+Proof. exact b64_text_length_raw. Qed.
+Print Assumptions C22_bytes_base64_text_length_raw.
+
 (* non-vacuity: notations of 100 into int32, and both F6 witnesses are in the class *)
 Example C22_ex_1e2 :
   decode_int 32 true ["1"; "e"; "2"]%byte = Some 100%Z /\
@@ -164,7 +229,11 @@ Example C22_ex_bytes :
   unmarshal_bytes (C22_str_tok ["Q"; "U"; "I"; "="]%byte) = Some ["A"; "B"]%byte /\
   unmarshal_bytes (C22_str_tok ["Q"; "U"; "I"]%byte) = Some ["A"; "B"]%byte /\
   unmarshal_bytes (C22_str_tok ["-"; "_"; "8"]%byte) = Some [xfb; xff]%byte /\
-  unmarshal_bytes (C22_str_tok ["Q"; "="]%byte) = None.
+  unmarshal_bytes (C22_str_tok ["Q"; "="]%byte) = None /\
+  unmarshal_bytes (C22_str_tok ["Q"; "U"; "I"; "!"]%byte) = None /\
+  unmarshal_bytes (C22_str_tok ["Q"; "U"; "I"; "D"; "Q"]%byte) = None /\
+  b64_encode_variant true false [xfb; xff]%byte = ["-"; "_"; "8"]%byte /\
+  no_nl ["Q"; "U"; "I"; "="]%byte.
 Proof. vm_compute. repeat split. Qed.
 Example C22_ex_enum :
   let values := [(["F"; "O"; "O"]%byte, 0%Z); (["B"; "A"; "R"]%byte, 1%Z)] in
